@@ -125,6 +125,15 @@ def check(case, ctx):
     out = call(lambda: o.q_conj(aa.copy()))
     if ctx.returned(out, route="orientation.q_conj"):
         ctx.ok("q_conj = (w, -v)", np.array_equal(np.asarray(out.value, float), rq.qconj(aa)), route="orientation.q_conj")
+    # N-row stacks through the free functions (N = 1 .. 5: N = 4 is a square array, N = 3 looks like vectors)
+    for n_ in (1, 2, 3, 4, 5):
+        S_ = np.array([aa, bb, cc, rq.qmul(aa, bb), rq.qmul(bb, cc)][:n_])
+        out = call(lambda: np.asarray(o.q_conj(S_.copy()), float))
+        if ctx.returned(out, clause="no-exception[N-row stack]", route="orientation.q_conj"):
+            ctx.ok("q_conj of an N-row stack conjugates every row", out.value.shape == S_.shape and np.array_equal(out.value, S_ * np.array([1.0, -1, -1, -1])), {"N": n_, "got": out.value}, route="orientation.q_conj")
+        out = call(lambda: np.asarray(o.q_norm(S_.copy()), float))
+        if out.ok and out.value.shape == S_.shape:
+            ctx.le("q_norm of an N-row stack normalises every row", np.abs(out.value - S_ / np.linalg.norm(S_, axis=1)[:, None]).max(), 1e-15, {"N": n_}, route="orientation.q_conj")
     # inverse on both sides (for whatever norm is stored)
     mech = "stored norm == 1" if abs(na - 1.0) <= 1e-12 else "stored norm != 1"
     for r, getter in (("Quaternion.inverse", lambda: np.asarray(A.inverse)), ("Quaternion.inv", lambda: np.asarray(A.inv))):
@@ -220,7 +229,9 @@ def check(case, ctx):
                     return float("inf")
                 d_ = np.abs(x - y)
                 return float(np.nanmax(d_)) if np.any(~np.isnan(d_)) else 0.0
-            ctx.le("S: same to_angles() / to_axang()", max(nd(S_[2], H_[2]), nd(S_[3], H_[3]), nd(S_[4], H_[4])), 1e-13, route=r)
+            # (re-normalising the permuted data moves the stored components by an ulp; Euler angles amplify that by 1/cos(pitch), the axis by 1/sin(angle/2))
+            amp = 1.0 / max(abs(np.cos(H_[2][1])) if np.isfinite(H_[2][1]) else 1.0, 1e-6) + 1.0 / max(abs(np.sin(H_[4] / 2.0)) if np.isfinite(H_[4]) else 1.0, 1e-6)
+            ctx.le("S: same to_angles() / to_axang()", max(nd(S_[2], H_[2]), nd(S_[3], H_[3]), nd(S_[4], H_[4])), 1e-13 + 1e-15 * amp, route=r)
             ctx.ok("S: same is_pure / is_real / is_versor / is_identity", S_[5:] == H_[5:], {"S": S_[5:], "H": H_[5:]}, route=r)
         if versor or abs(na - 1) < 1e-12:
             o3 = call(lambda: (np.asarray(AS.to_DCM(), float), np.asarray(A.to_DCM(), float),
